@@ -457,6 +457,10 @@ class RaftNode(Entity):
 
             if existing and existing.term != entry_term:
                 self._log.truncate_from(idx)
+                # Commands we accepted as a former leader at these indices are
+                # gone; their futures must not resolve with another command.
+                for stale in [i for i in self._pending_futures if i >= idx]:
+                    del self._pending_futures[stale]
                 self._log.append(entry_term, entry_dict["command"])
             elif not existing:
                 self._log.append(entry_term, entry_dict["command"])
